@@ -1043,12 +1043,7 @@ class SymCtx:
                 return SymBool(na == nb)
             x, y = _coerce(a, b)
             return SymBool(x == y)
-        if isinstance(a, float) or isinstance(b, float):
-            try:
-                return fractions.Fraction(a) == fractions.Fraction(b)
-            except (TypeError, ValueError):
-                return a == b
-        return a == b
+        return _tol_eq(a, b)       # two concrete numbers (a concrete unit next to the symbolic one): float tolerance
 
     max = staticmethod(sym_max)
     min = staticmethod(sym_min)
